@@ -112,14 +112,7 @@ theorem encode_length_le : ∀ (t : Ty) (v : Val) (h : HChan) (bs : Bytes) (h' :
     cases v with
     | list kvs =>
       simp only [encode] at he
-      generalize hF : (fun (kv : Val) (h : HChan) =>
-        match encode k (kvKey kv) h with
-        | .ok (a, h') =>
-          match encode v' (kvVal kv) h' with
-          | .ok (b, h'') => Except.ok (a ++ b, h'')
-          | .error err => .error err
-        | .error err => .error err) = F at he
-      cases hall : encAll F kvs h with
+      cases hall : encAll (pairEnc (encode k) (encode v')) kvs h with
       | error er => simp [hall] at he
       | ok r =>
         obtain ⟨bs', h2⟩ := r
@@ -128,8 +121,7 @@ theorem encode_length_le : ∀ (t : Ty) (v : Val) (h : HChan) (bs : Bytes) (h' :
         have := encAll_length (g := fun kv => size k (kvKey kv) + size v' (kvVal kv)) kvs h bs' h2
           (by
             intro kv _ h b h' hab
-            subst hF
-            simp only at hab
+            simp only [pairEnc] at hab
             cases ha : encode k (kvKey kv) h with
             | error er => simp [ha] at hab
             | ok r1 =>
@@ -191,10 +183,12 @@ theorem encode_length_le : ∀ (t : Ty) (v : Val) (h : HChan) (bs : Bytes) (h' :
       split at he
       · simp at he
       · simp at he
-      · simp only [Except.ok.injEq, Prod.mk.injEq] at he
-        rw [← he.1]
-        have := encInt_length_le .i64 ‹Int›
-        simp only [size, List.length_cons, List.length_append]; omega
+      · split at he
+        · simp at he
+        · simp only [Except.ok.injEq, Prod.mk.injEq] at he
+          rw [← he.1]
+          have := encInt_length_le .i64 ‹Int›
+          simp only [size, List.length_cons, List.length_append]; omega
     | _ => simp [encode] at he
   | .wrap t, v, h, bs, h', he => by
     simp only [encode] at he; simpa [size] using encode_length_le t v h bs h' he
